@@ -172,6 +172,10 @@ func verifyFunc(p *Program, fn *ssa.Function, fc *FuncContract) (u *UnitResult) 
 		env.calleeScope = true
 		envs = append(envs, retEnv{env, r.st})
 	}
+	for ri, re := range envs {
+		vo := vc.oblige("vacuity.return", fmt.Sprintf("ret%d", ri+1), name, re.st.reach, "false", "")
+		vo.Vacuity = true
+	}
 	for i, en := range fc.Ensures {
 		lab := en.Label
 		if lab == "" {
